@@ -144,66 +144,67 @@ def rmReg (reg : PartId → Option (Nat × Nat)) (removed : List Row) (q : PartI
     else some (c, v)          -- "skipping decrement … (row missing or ref_count too low)"
   | none => none
 
+/-- `dedupeFreshPart`, no shareable part: the fresh part `f` stays (already `PutPart` into `st`)
+and `TryIndexDedupPart` = INSERT OR IGNORE into `idx`. -/
+def keepFresh (s : St) (pend : List Pend) (st : Store) (f : PartId)
+    (idx : Store → CKey → Option PartId) : St × List Pend :=
+  ({ s with used := f :: s.used, stores := upd2 s.stores st f (some s.now), idx := idx }, pend ++ [⟨f, false, st⟩])
+
+def tryIndex (idx : Store → CKey → Option PartId) (st : Store) (ck : CKey) (f : PartId) :
+    Store → CKey → Option PartId :=
+  match idx st ck with
+  | some _ => idx
+  | none => upd2 idx st ck (some f)
+
+/-- `dedupeFreshPart`, shared: `TryAddReferences [e]` succeeded, the fresh copy is deleted again. -/
+def shareHit (s : St) (pend : List Pend) (st : Store) (f e : PartId) (c v : Nat) : St × List Pend :=
+  ({ s with used := f :: s.used, reg := upd1 s.reg e (some (c + 1, v + 1)),
+            stores := upd2 (upd2 s.stores st f (some s.now)) st f none }, pend ++ [⟨e, true, st⟩])
+
+def rmStep (s : St) (owner : Owner) (seq : Option Nat) : St :=
+  let removed := s.rows.filter (rmSel owner seq)
+  { s with
+    rows := s.rows.filter (fun r => !rmSel owner seq r),
+    reg := rmReg s.reg removed,
+    idx := dropIdx s.idx (rmZero s.reg removed),
+    stores := fun st q => if rmZero s.reg removed q && lastStoreOf removed q == some st then none else s.stores st q }
+
 /-- One step inside a write transaction.  `none` = the transaction fails (and is rolled back). -/
 def micro (t : St × List Pend) : Micro → Option (St × List Pend)
   | .acquire p st =>
-    let (s, pend) := t
-    if s.rows.any (fun r => r.pid == p && r.store == st) then
-      match s.reg p with
+    if t.1.rows.any (fun r => r.pid == p && r.store == st) then
+      match t.1.reg p with
       | some (c, v) =>
         if 0 < c then          -- `… WHERE part_id = $3 AND ref_count > 0`
-          some ({ s with reg := upd1 s.reg p (some (c + 1, v + 1)) }, pend ++ [⟨p, true, st⟩])
+          some ({ t.1 with reg := upd1 t.1.reg p (some (c + 1, v + 1)) }, t.2 ++ [⟨p, true, st⟩])
         else none
       | none => none
     else none
   | .dedupe st ck f =>
-    let (s, pend) := t
-    if f ∈ s.used then none else
-    let put := upd2 s.stores st f (some s.now)
-    let keepFresh (idx : Store → CKey → Option PartId) : Option (St × List Pend) :=
-      -- TryIndexDedupPart: INSERT OR IGNORE
-      let idx' := match idx st ck with
-        | some _ => idx
-        | none => upd2 idx st ck (some f)
-      some ({ s with used := f :: s.used, stores := put, idx := idx' }, pend ++ [⟨f, false, st⟩])
-    match s.idx st ck with
-    | none => keepFresh s.idx
+    if f ∈ t.1.used then none else
+    match t.1.idx st ck with
+    | none => some (keepFresh t.1 t.2 st f (tryIndex t.1.idx st ck f))
     | some e =>
-      match s.reg e with
+      match t.1.reg e with
       | some (c, v) =>
-        if 0 < c then
-          -- shared: reference taken, the fresh copy is deleted again
-          some ({ s with used := f :: s.used, reg := upd1 s.reg e (some (c + 1, v + 1)),
-                         stores := upd2 put st f none }, pend ++ [⟨e, true, st⟩])
-        else keepFresh (dropIdx s.idx (fun q => q == e))    -- stale entry removed
-      | none => keepFresh (dropIdx s.idx (fun q => q == e))
+        if 0 < c then some (shareHit t.1 t.2 st f e c v)
+        else   -- stale entry: `DeletePartDedupEntries [e]`, then index the fresh part
+          some (keepFresh t.1 t.2 st f (tryIndex (dropIdx t.1.idx (fun q => q == e)) st ck f))
+      | none => some (keepFresh t.1 t.2 st f (tryIndex (dropIdx t.1.idx (fun q => q == e)) st ck f))
   | .rawput st f =>
-    let (s, pend) := t
-    if f ∈ s.used then none else
-    some ({ s with used := f :: s.used, stores := upd2 s.stores st f (some s.now) }, pend ++ [⟨f, false, st⟩])
+    if f ∈ t.1.used then none else some (keepFresh t.1 t.2 st f t.1.idx)
   | .save owner seq ck =>
-    let (s, pend) := t
-    match pend with
+    match t.2 with
     | [] => none
     | e :: rest =>
-      if s.rows.any (fun r => r.owner == owner && r.seq == seq) then none   -- UNIQUE(object_id, sequence_number)
+      if t.1.rows.any (fun r => r.owner == owner && r.seq == seq) then none   -- UNIQUE(object_id, sequence_number)
+      else if e.pre then some ({ t.1 with rows := t.1.rows ++ [⟨owner, seq, e.pid, e.store, ck⟩] }, rest)
       else
-      let row : Row := ⟨owner, seq, e.pid, e.store, ck⟩
-      if e.pre then some ({ s with rows := s.rows ++ [row] }, rest)
-      else
-        match s.reg e.pid with
+        match t.1.reg e.pid with
         | some _ => none       -- RegisterParts: INSERT on an existing primary key
-        | none => some ({ s with rows := s.rows ++ [row], reg := upd1 s.reg e.pid (some (1, 1)) }, rest)
-  | .rm owner seq =>
-    let (s, pend) := t
-    let removed := s.rows.filter (rmSel owner seq)
-    let zero := rmZero s.reg removed
-    some ({ s with
-            rows := s.rows.filter (fun r => !rmSel owner seq r),
-            reg := rmReg s.reg removed,
-            idx := dropIdx s.idx zero,
-            stores := fun st q => if zero q && lastStoreOf removed q == some st then none else s.stores st q },
-          pend)
+        | none => some ({ t.1 with rows := t.1.rows ++ [⟨owner, seq, e.pid, e.store, ck⟩],
+                                   reg := upd1 t.1.reg e.pid (some (1, 1)) }, rest)
+  | .rm owner seq => some (rmStep t.1 owner seq, t.2)
 
 def runMicros (t : St × List Pend) : List Micro → Option (St × List Pend)
   | [] => some t
@@ -302,7 +303,7 @@ def step (cfg : Cfg) (s : St) : Act → St
     | [] => s
     | o :: rest => { reconcileOne s o with gcObs := rest }
   | .gcDedup => { s with idx := gcDedupIdx s }
-  | .gcCondemn st p => condemn cfg s st p
+  | .gcCondemn st p => if p ∈ s.used then condemn cfg s st p else s   -- only ids that were handed out can be listed
   | .gcExtDelete =>
     match s.gcExt with
     | [] => s
@@ -346,5 +347,71 @@ def gcRunF (cfg : Cfg) (fail : PartId → Bool) (s : St) : St :=
 
 /-- `runGCWithContext` with nothing else running and every deletion succeeding. -/
 def gcRun (cfg : Cfg) (s : St) : St := gcRunF cfg (fun _ => false) s
+
+-- ---------------------------------------------------------------- where the grace window is needed
+
+/-
+The system above treats a writer's `PutPart` and the commit of its rows as one step.  That is what
+SQLite + a transactional part store give.  With a part store whose `PutPart` is visible at once
+(or a database running write transactions concurrently) a part can be *listed* by the collector
+while the transaction that will reference it is still open.  `Grace` is the small system for that
+window: parts are written (`put`), later committed or rolled back; the collector lists the ids
+older than the grace window (`list`) and condemns listed ids one by one, re-checking the committed
+references (`condemn`) exactly like `Condemn` does.
+-/
+namespace Grace
+
+structure G where
+  store : List (PartId × Nat)     -- visible parts with their creation time
+  inflight : List PartId          -- written by a transaction that is still open
+  committed : List PartId         -- referenced by a committed row
+  cands : List PartId             -- the collector's candidate list
+  used : List PartId
+  now : Nat
+
+inductive GA where
+  | put (f : PartId)
+  | commit (f : PartId)
+  | rollback (f : PartId)
+  | tick (n : Nat)
+  /-- `GetPartIds` + age filter of a store that shows uncommitted parts -/
+  | list
+  /-- … of a transactional store: uncommitted parts are not visible -/
+  | listTx
+  | condemn
+  deriving DecidableEq, Repr
+
+def ids (g : G) : List PartId := g.store.map (·.1)
+
+def gstep (grace : Nat) (g : G) : GA → G
+  | .put f =>
+    if f ∈ g.used then g
+    else { g with store := (f, g.now) :: g.store, inflight := f :: g.inflight, used := f :: g.used }
+  | .commit f =>
+    if f ∈ g.inflight then
+      { g with inflight := g.inflight.filter (· != f), committed := f :: g.committed }
+    else g
+  | .rollback f =>
+    if f ∈ g.inflight then
+      { g with inflight := g.inflight.filter (· != f), store := g.store.filter (fun e => e.1 != f) }
+    else g
+  | .tick n => { g with now := g.now + n }
+  | .list => { g with cands := (g.store.filter (fun e => decide (e.2 + grace < g.now))).map (·.1) }
+  | .listTx =>
+    { g with cands := (g.store.filter (fun e => decide (e.2 + grace < g.now) && !g.inflight.contains e.1)).map (·.1) }
+  | .condemn =>
+    match g.cands with
+    | [] => g
+    | p :: rest =>
+      if p ∈ g.committed then { g with cands := rest }
+      else { g with cands := rest, store := g.store.filter (fun e => e.1 != p) }
+
+def grun (grace : Nat) (g : G) : List GA → G
+  | [] => g
+  | a :: as => grun grace (gstep grace g a) as
+
+def G.init : G := ⟨[], [], [], [], [], 0⟩
+
+end Grace
 
 end Pithos.Parts
